@@ -2,7 +2,7 @@
     binary64 arithmetic (PrimFloat, against `KMeans<f64>`) and with the binary32 arithmetic
     (SpecFloat at precision 24, against `KMeans<f32>`). *)
 From Coq Require Import List NArith ZArith Bool Floats SpecFloat.
-From LinfaVerif Require Export Common.Num Common.NdSum Common.Run Common.B32 C09.Model.
+From LinfaVerif Require Export Common.Num Common.NdSum Common.Run Common.B32 C09.Model C09.ModelExt.
 Import ListNotations.
 
 (** what the evaluator needs beyond NumOps *)
@@ -47,8 +47,11 @@ Definition b32 (z : Z) : spec_float := b32_of_bits z.
 Inductive initspec (T : Type) :=
 | InitGiven (inits : list (list (list T)))    (* Precomputed, or Random with replayed index samples *)
 | InitPlusPlus (runs : N) (words : list N)    (* KMeansPlusPlus: the generator's raw next_u64 words *)
-| InitHidden.                                 (* KMeansPara: not replayable, property oracle only *)
-Arguments InitGiven {T}. Arguments InitPlusPlus {T}. Arguments InitHidden {T}.
+| InitPara1 (runs : N) (words : list N)       (* KMeansPara fitted inside a one-thread rayon pool: the
+                                                 parameter generator's raw next_u64 words *)
+| InitHidden.                                 (* KMeansPara in a multi-thread pool: the task split is
+                                                 not a function of the input, property oracle only *)
+Arguments InitGiven {T}. Arguments InitPlusPlus {T}. Arguments InitPara1 {T}. Arguments InitHidden {T}.
 
 Record fitcase (T : Type) := {
   fc_fuel : N;                       (* max_n_iterations *)
@@ -60,12 +63,13 @@ Record fitcase (T : Type) := {
   fc_counts : list T;
   fc_inertia : T;
   fc_query : list (list T);
-  fc_predict : list N;
+  fc_predict : list N;             (* predict on the query matrix *)
+  fc_predict1 : list N;            (* predict on every query row separately (the Ix1 form) *)
   fc_transform : list T
 }.
 Arguments fc_fuel {T}. Arguments fc_tol {T}. Arguments fc_init {T}. Arguments fc_k {T}.
 Arguments fc_centroids {T}. Arguments fc_counts {T}. Arguments fc_inertia {T}.
-Arguments fc_query {T}. Arguments fc_predict {T}. Arguments fc_transform {T}.
+Arguments fc_query {T}. Arguments fc_predict {T}. Arguments fc_predict1 {T}. Arguments fc_transform {T}.
 
 Record gcase (T : Type) := {
   c_id : N;
@@ -100,26 +104,65 @@ Definition inits_of (m : metric) (X : list (list T)) (fc : fitcase T) : option (
   | InitGiven l => Some l
   | InitPlusPlus runs words =>
       Some (plusplus_inits o (x_fmt x) m X (N.to_nat (fc_k fc)) (N.to_nat runs) words)
+  | InitPara1 runs words =>
+      Some (para_inits1 o (x_fmt x) m X (N.to_nat (fc_k fc)) (N.to_nat runs) words)
   | InitHidden => None
   end.
 
-(* ---- correspondence: model = implementation, bit for bit ---- *)
-Definition corr_fit (m : metric) (X : list (list T)) (fc : fitcase T) : N :=
+(* ---- correspondence: model = implementation, bit for bit; iteration budget ---- *)
+
+(* the least j >= 1 with step^j(init_r) = target, for the first restart r that has one within the
+   budget: which restart the returned centroids come from and how many Lloyd iterations it performed,
+   as far as the returned centroids show it *)
+Fixpoint find_iter (target : list (list T)) (its : list (list (list T))) (j : N) : option N :=
+  match its with
+  | [] => None
+  | c :: r => if rows_eqb c target then Some j else find_iter target r (N.succ j)
+  end.
+Fixpoint find_restart (target : list (list T)) (its_all : list (list (list (list T)))) (r : N)
+  : option (N * N) :=
+  match its_all with
+  | [] => None
+  | its :: rest =>
+      match find_iter target its 1 with
+      | Some j => Some (r, j)
+      | None => find_restart target rest (N.succ r)
+      end
+  end.
+Definition opt_eqb (a b : option (N * N)) : bool :=
+  match a, b with
+  | None, None => true
+  | Some (r, j), Some (r', j') => N.eqb r r' && N.eqb j j'
+  | _, _ => false
+  end.
+
+(* (correspondence bits of the fit, oracle bit 2048).  The model is the literal two-loop model
+   [fit_whole] (equal to [fit] by C09/Properties.v fit_whole_is_fit).  Oracle 2048: the returned
+   centroids must be the result of at least one and at most max_n_iterations m_k-means steps from the
+   initialisation of one of the restarts (Properties.v fit_run_uses_own_budget,
+   fit_returns_iterate_within_budget) - judged on the implementation's output alone. *)
+Definition fit_codes (m : metric) (X : list (list T)) (fc : fitcase T) : N * N :=
   match inits_of m X fc with
-  | None => 0%N
+  | None => (0%N, 0%N)
   | Some inits =>
-      match fit o m (fc_tol fc) (N.to_nat (fc_fuel fc)) (N.to_nat (fc_k fc)) inits X with
-      | None => 1%N
+      let its_all := map (fun i => iterates o (N.to_nat (fc_fuel fc)) m i X) inits in
+      let seen := find_restart (fc_centroids fc) its_all 0 in
+      let orc := flag (match seen with Some _ => true | None => false end) 2048 in
+      match fst (fit_whole o m (fc_tol fc) (fc_fuel fc) (N.to_nat (fc_k fc)) inits X) with
+      | None => (1%N, orc)
       | Some f =>
-          (flag (rows_eqb (f_centroids f) (fc_centroids fc)) 1
-           + flag (list_eqb (x_eq x) (f_counts f) (fc_counts fc)) 2
-           + flag (x_eq x (f_inertia f) (fc_inertia fc)) 4)%N
+          ((flag (rows_eqb (f_centroids f) (fc_centroids fc)) 1
+            + flag (list_eqb (x_eq x) (f_counts f) (fc_counts fc)) 2
+            + flag (x_eq x (f_inertia f) (fc_inertia fc)) 4
+            + flag (opt_eqb seen (find_restart (f_centroids f) its_all 0)) 32)%N, orc)
       end
   end.
 
 Definition corr_query (m : metric) (fc : fitcase T) : N :=
-  (flag (list_eqb N.eqb (map N.of_nat (predict o m (fc_centroids fc) (fc_query fc))) (fc_predict fc)) 8
-   + flag (list_eqb (x_eq x) (transform o m (fc_centroids fc) (fc_query fc)) (fc_transform fc)) 16)%N.
+  let p := map N.of_nat (predict o m (fc_centroids fc) (fc_query fc)) in
+  (flag (list_eqb N.eqb p (fc_predict fc)) 8
+   + flag (list_eqb (x_eq x) (transform o m (fc_centroids fc) (fc_query fc)) (fc_transform fc)) 16
+   + flag (list_eqb N.eqb p (fc_predict1 fc)) 64)%N.
 
 (* ---- property oracle on the implementation's output ---- *)
 Definition col_minmax (rows : list (list T)) (j : nat) : T * T :=
@@ -166,8 +209,11 @@ Definition oracle_fit (m : metric) (bbox : bool) (X : list (list T)) (fc : fitca
    + flag (x_eq x (div o (usum o (map snd a)) (of_N o (N.of_nat n))) (fc_inertia fc)) 32
    + flag (Nat.eqb (length (fc_predict fc)) (length (fc_query fc))
            && Nat.eqb (length (fc_transform fc)) (length (fc_query fc))
+           && Nat.eqb (length (fc_predict1 fc)) (length (fc_query fc))
            && forallb (fun t => let '(q, p, dd) := t in argmin_ok m cs q p dd)
-                      (zip3 (fc_query fc) (fc_predict fc) (fc_transform fc))) 64)%N.
+                      (zip3 (fc_query fc) (fc_predict fc) (fc_transform fc))
+           && forallb (fun t => let '(q, p, dd) := t in argmin_ok m cs q p dd)
+                      (zip3 (fc_query fc) (fc_predict1 fc) (fc_transform fc))) 64)%N.
 
 Definition cost_of (m : metric) (X : list (list T)) (fc : fitcase T) : T :=
   cost o m (fc_centroids fc) X.
@@ -194,9 +240,11 @@ Definition oracle_series (c : gcase T) : N :=
   end.
 
 Definition run_gcase (c : gcase T) : verdict :=
-  (c_id c,
-   (lor_list (map (fun fc => N.lor (corr_fit (c_metric c) (c_X c) fc) (corr_query (c_metric c) fc)) (c_fits c)),
-    N.lor (lor_list (map (oracle_fit (c_metric c) (c_bbox c) (c_X c)) (c_fits c))) (oracle_series c))).
+   let codes := map (fit_codes (c_metric c) (c_X c)) (c_fits c) in
+   (c_id c,
+    (N.lor (lor_list (map fst codes)) (lor_list (map (corr_query (c_metric c)) (c_fits c))),
+     N.lor (N.lor (lor_list (map snd codes)) (lor_list (map (oracle_fit (c_metric c) (c_bbox c) (c_X c)) (c_fits c))))
+           (oracle_series c))).
 
 End Eval.
 
